@@ -754,7 +754,9 @@ pub fn run(tier: Tier) -> i32 {
     let scratch = Scratch::new("c11");
     let pick: Vec<&Vec<Cls>> = [1usize, 5, 8, 9, 11, 12, 15, 17].iter().map(|&i| &ks[i].1).collect();
     let np = pick.len();
-    let perms: Vec<Vec<usize>> = if tier.thorough() { permutations(np) } else { permutations(np).into_iter().step_by(167).collect() };
+    // every 167th of the 40 320 orders in the quick tier, every 11th in the thorough one (each order
+    // costs six processes; all orders would be a quarter of a million processes)
+    let perms: Vec<Vec<usize>> = permutations(np).into_iter().step_by(tier.pick(167, 11)).collect();
     let mut l2jobs: Vec<(Vec<usize>, bool)> = Vec::new();
     for p in &perms {
         for proj in [false, true] {
@@ -1018,7 +1020,7 @@ pub fn run(tier: Tier) -> i32 {
         name: "cli: permutations and split points of an 8-record VCF (one record without a GT key, one with extra INFO/FORMAT fields, records with one and with three ALT alleles), also with all records at one POS on alternating contigs and at trace verbosity".into(),
         evaluations: (l2jobs.len() + 3 * n_split) as u64,
         nontrivial: (l2jobs.len() + 3 * n_split) as u64,
-        note: format!("{} permutations x {{no projection, --project-shape 3,3}}; {} split points (create(a)+create(b) = create(a||b))", perms.len(), n_split),
+        note: format!("{} of the 40 320 permutations (every 167th, thorough every 11th, in lexicographic order) x {{no projection, --project-shape 3,3}}; {} split points (create(a)+create(b) = create(a||b))", perms.len(), n_split),
         exhaustive: true,
         extra: vec![],
     });
